@@ -203,6 +203,9 @@ pub fn label_config(cfg: &BuilderConfig, o: &mut Outcome) {
     for d in &cfg.deps {
         o.label(format!("dep-kind-{}", d.kind));
     }
+    if cfg.deps.windows(2).any(|w| w[0].kind == w[1].kind && w[0].name == w[1].name) {
+        o.label("same-name-dependencies-in-a-row");
+    }
     if cfg.packager.is_some() {
         o.label("packager-set");
     }
@@ -236,7 +239,7 @@ impl Property for C06 {
         ]
     }
     fn required_labels(&self, _t: Tier) -> Vec<&'static str> {
-        vec!["setters-after-files", "root-level-file", "dot-style-destination", "inherited-mode", "comp-none", "comp-gzip", "comp-zstd", "comp-xz", "comp-bzip2", "signed", "scriptlet-verify", "scriptlet-pre_install", "dep-kind-0", "dep-kind-7", "packager-set", "group-set", "file-with-caps"]
+        vec!["setters-after-files", "same-name-dependencies-in-a-row", "root-level-file", "dot-style-destination", "inherited-mode", "comp-none", "comp-gzip", "comp-zstd", "comp-xz", "comp-bzip2", "signed", "scriptlet-verify", "scriptlet-pre_install", "dep-kind-0", "dep-kind-7", "packager-set", "group-set", "file-with-caps"]
     }
     fn phases(&self, tier: Tier) -> Vec<Phase<C06Case>> {
         vec![Phase::Random {
